@@ -318,6 +318,18 @@ def diagram_rule_incomplete(ctx):
         for p in (p1, p2, p3):
             for mode in (True, False):
                 cases.append((f"{p.name} should_only={mode}", lambda p=p, mode=mode: DiagramRule(should_only_rule=mode).from_file(p).with_base_module("r").assert_applies(arch)))
+        # a diagram that names a component absent from the architecture (a typo): every declaration / arrow form, the unknown
+        # name on either side, ASCII and non-ASCII identifiers - a lookup error, never a verdict
+        k = 0
+        for ghost in ("zz", "a_typo", "\u00fcberblick", "\u00e9cran", "gro\u00df", "\u043c\u043e\u0434\u0435\u043b\u044c", "\u30c7\u30fc\u30bf", "b.deeper.zz"):
+            for body in (f"[{ghost}] --> [b]", f"[a] --> [{ghost}]", f"[b] <-- [{ghost}]", f"{ghost} --> b", f"a -> {ghost}", f"[{ghost}]\n[a] --> [b]",
+                         f"component {ghost}\n[a] --> [b]", f"component [{ghost}] as g\n[a] --> g", f"[a] -uses-> [{ghost}]"):
+                k += 1
+                p = d / f"ghost{k}.puml"
+                p.write_text("@startuml\n" + body + "\n@enduml\n", encoding="utf-8")
+                for mode in (True, False):
+                    cases.append((f"unknown component {ghost!r} in {body!r} should_only={mode}",
+                                  lambda p=p, mode=mode: DiagramRule(should_only_rule=mode).from_file(p).with_base_module("r").assert_applies(arch)))
         for name, fn in cases:
             try:
                 fn()
@@ -372,7 +384,7 @@ def run(ctx: Ctx):
                 "unknown and too-deep names, non-matching regexes), every deletion/duplication/transposition/insertion of 11 complete chains; each followed by assert_applies; "
                 "oracle on the real code: history rejected by the specification automaton => neither PASS nor AssertionError; model outcome compared as well. "
                 "LayerRule: all call-chain prefixes and mutations (see c13_layer). Unknown/too-deep names on random (also level-limited) architectures x 24 rule shapes. "
-                "All 48 entry-point option combinations + module_path outside root_path. DiagramRule without file / without tags. non-trivial = accepted (complete) histories and distinct error cases")
+                "All 48 entry-point option combinations + module_path outside root_path. DiagramRule without file / without tags / naming a component that does not exist (all line forms, ASCII and non-ASCII names). non-trivial = accepted (complete) histories and distinct error cases")
 
 
 def replay(ctx: Ctx, path: str) -> int:
